@@ -33,6 +33,9 @@ CLAIMED['C10'] = dict(design='8/C10', technique='deductive verification: frame a
 CLAIMED['C05'] = dict(design='8/C05', technique='deductive verification: postconditions of the six dispatch functions over the dispatch table, generated codecs used through table-derived contracts (modular); z3/cvc5',
    text='Proof over all 256 discriminator and 256 message-type values at both header offsets: nil/empty/short input, unknown discriminator and unknown type are errors; success allocates a fresh family message, copies the header, populates exactly the body named by the type octet whose own header octets equal the header view; encoding dispatches symmetrically, appends exactly ENC_T(body), and unknown type, absent family or absent body are errors.',
    note='Codecs are used through contracts derived from spec/messages.json (their validity on the code is C04). ' + TB_CODEC)
+CLAIMED['C20'] = dict(design='8/C20', technique='deductive verification: representation invariant and live-set view as contracts on every method, scan-loop invariant over a cyclic interval, variant, skolemised quantifiers over an SMT-array map model; z3/cvc5',
+   text='Proof that every method of IDGenerator preserves the representation invariant, that every returned id is inside [minValue, maxValue], was not live and becomes live, that errors leave the live set unchanged, that plain Allocate fails only when all offsets are live, and that FreeID makes the id allocatable again; for all allocator ranges up to 2^62 and all states, histories by induction.',
+   note='map[int64]bool as SMT array of presence bits; x % y with symbolic divisor replaced by a remainder lemma that is itself discharged (lemma.srem64); induction over histories on paper.')
 REASONS = {}
 checks = []
 for p in props:
